@@ -48,6 +48,7 @@ def make_strats():
 
   def fn6(*args, **kwargs):
     return ("fn", 6, args, tuple(sorted(kwargs.items())))
+  fn5._tag, fn6._tag = "fn5", "fn6"
   out += [fn5, fn6]
   return out
 
